@@ -57,6 +57,7 @@ class Org(Symbol):
     name: int = 0
     members: Set[Human] = field(default_factory=set)
     sub_org_of: List[Org] = field(default_factory=list)
+    partner_of: List[Org] = field(default_factory=list)  # a second property between the same kinds of instances
 
 
 @dataclass(eq=False)
@@ -115,6 +116,10 @@ class HeadOf(WorksFor):
 class SubOrgOf(PropertyDescriptor, TransitiveProperty): ...
 
 
+@dataclass
+class PartnerOf(PropertyDescriptor): ...
+
+
 # a property hierarchy of depth 3 without inverses, and a class that has the sub-property and the grand-parent but not the middle one
 @dataclass
 class Near(PropertyDescriptor): ...
@@ -155,6 +160,7 @@ Human.member_of = MemberOf(Human, "member_of")
 Boss.head_of = HeadOf(Boss, "head_of")
 Org.members = Member(Org, "members")
 Org.sub_org_of = SubOrgOf(Org, "sub_org_of")
+Org.partner_of = PartnerOf(Org, "partner_of")
 
 CLASSES = {"T": T, "Sub": Sub, "Falsy": Falsy, "SubSub": SubSub, "Other": Other, "Org": Org, "Human": Human}
 
